@@ -51,7 +51,9 @@ class CSA:
         self.sid = 0
         self.collect = None       # when set: list receiving finished paths (method, kind, st, val)
         self.symtab_bool = {}
-        self.symtab_reset = set()     # name -> ('ctxlen', op, n) evaluators for SymbolTable bool methods
+        self.err_dirty = {}
+        self.symtab_reset = {}
+        self.symtab_resolve = set()     # name -> ('ctxlen', op, n) evaluators for SymbolTable bool methods
         self.err_states = []      # states at error exits (for C17)
         self.unmodelled = []
         self.escapes_of = {}
@@ -592,6 +594,7 @@ class CSA:
                 if v[0] == 'opt' and v[1] == 'none':
                     self.m.finalize(s1)
                     s1.last = 'None'
+                    s1.dirty.discard('last')
                 elif v[0] == 'opt' and v[2][0] == 'opcode':
                     s1.last = v[2][1]
                 else:
@@ -727,6 +730,7 @@ class CSA:
                     m.finalize(s)
                     s.pending = {}
                     s.code = []
+                    s.dirty.discard('code')
                     s.emitted = False
                     s.h = H(0)
                     s.reach = True
@@ -761,6 +765,7 @@ class CSA:
                     if meth == 'clear':
                         s.loops = []
                         s.outer_loops = 'empty'
+                        s.dirty.discard('loops')
                     return V(('unk', meth))
                 raise Undecided('CSA: self.loop_contexts.%s()' % meth)
             if fld in ('constants', 'gc', 'last_instruction'):
@@ -852,7 +857,7 @@ class CSA:
             s.facts[('symhow', sid)] = 'define'
             s.facts[('symctx', sid)] = s.ctx_depth
             return V(('sym', sid))
-        if meth == 'resolve':
+        if meth == 'resolve' or meth in self.symtab_resolve:
             sid = self.fresh_sym()
             s1 = s.clone()
             s1.facts[('symname', sid)] = a[0]
@@ -877,9 +882,13 @@ class CSA:
             # back to the bare global context: only meaningful at the top level of a compilation (error recovery)
             if s.in_function is not False or s.frames:
                 s.viol('R09.1', 'self.symbols.%s() (drops every open scope/context) is called inside a construct' % meth)
-            s.scopes = 0
-            s.ctx_depth = 0
-            s.frames = []
+            what = self.symtab_reset[meth]
+            s.dirty -= set(what)
+            if 'scopes' in what:
+                s.scopes = 0
+            if 'contexts' in what:
+                s.ctx_depth = 0
+                s.frames = []
             return V(('unit',))
         # boolean query about the context depth: interpreted from its own source
         q = self.symtab_bool.get(meth)
@@ -1062,6 +1071,7 @@ class CSA:
         # the error exit
         s2 = s.clone()
         s2.trace.append('%s fails' % meth)
+        s2.dirty |= self.err_dirty.get(meth, set())
         out.append((s2, en, 'v', ('res', 'err', ('error', 'propagated'))))
         return out
 
@@ -1119,6 +1129,13 @@ class CSA:
                     ms = self.match_pat(e['pat'], elem, base, e0)
                     for _, s2, e2 in ms:
                         for s3, e3, k3, v3 in self.ev_block(e['body'], s2, e2):
+                            if isinstance(k3, tuple) and k3[0] == 'brk' and k3[1] is None:
+                                # leaving the loop early: the remaining elements of the list are never compiled
+                                s3.viol('R09.6', 'the loop over `%s` can stop before the end of the list: the remaining nodes are never compiled '
+                                        '(their names are not resolved, their code is not emitted)' % name)
+                                self.m.finalize(s3)
+                                out.append((s3, e0, 'v', ('unit',)))
+                                continue
                             if k3 != 'v':
                                 out.append((s3, e3, k3, v3))
                                 continue
@@ -1184,6 +1201,19 @@ class CSA:
             for meth in sorted(self.recursive):
                 outs = self.run_method(meth, lambda st: None)
                 for st, v in outs:
+                    if v[0] == 'res' and v[1] == 'err':
+                        d_ = set(st.dirty)
+                        if st.scopes > 0:
+                            d_.add('scopes')
+                        if st.frames:
+                            d_.add('contexts')
+                        if st.loops:
+                            d_.add('loops')
+                        if st.emitted:
+                            d_ |= {'code', 'last'}
+                        if not d_ <= self.err_dirty.setdefault(meth, set()):
+                            self.err_dirty[meth] |= d_
+                            changed = True
                     if not (v[0] == 'res' and v[1] == 'ok') and v[0] != 'unit':
                         continue
                     last = None
